@@ -142,6 +142,13 @@ def run_gen(case, R):
     # ------------------------------------------------------------------ leg 2: library re-read
     with R.lib('read'):
         x2 = t2data.t2data(f1, meshfilename=(mesh1 or ''))
+    # what was read is a usable model, not only equal lists: lookups, ordered lists and the per-block connection records
+    # of the grid agree with each other (the structural clauses of C08, for a grid obtained by reading)
+    from props import c08
+    c08.invariant(R, x2.grid, 'reread:grid')
+    gl = [(g.block, g.name) for g in x2.generatorlist]
+    R.check(set(x2.generator.keys()) == set(gl) and all(x2.generator[(g.block, g.name)] is g for g in x2.generatorlist) or len(set(gl)) != len(gl),
+            'reread:generator-lookup-vs-list', 'lookup keys %r, list %r' % (sorted(x2.generator.keys())[:4], gl[:4]))
     e2 = data.extract(x2)
     exp2 = data.through_format(m, xp_sections=[data.XP_SECTIONS[k] for k in written_xp])
     if m['mesh_mode'] == 'binary' and 'ELEME' not in written_xp:
